@@ -47,8 +47,8 @@ from vf.util import call
 from gen import g3_fragment_text as g3
 
 ID = 'C08'
-LEVEL = 'exploration'
-P_TARGETS = []
+LEVEL = 'other'
+P_TARGETS = ['cgsmiles.write_cgsmiles:format_bonding']
 BUDGET = {'quick': 33.0, 'thorough': 420.0}
 CHUNK = 40
 BOUNDS = {
